@@ -1037,7 +1037,7 @@ func (g *Gen) run() {
 			// inside a function literal belong to that literal, `Outer$k`, not to Outer)
 			// (clauses labelled hint_* are proof aids — obligations of their own wherever they apply —
 			// and may lose their anchor without the property's clauses being affected)
-			if (cl.Kind == "assert" || cl.Kind == "mark" || cl.Kind == "setflag" || cl.Kind == "storeassert") && cl.Call != "*" && (cl.Kind == "setflag" || !strings.HasPrefix(cl.Label, "hint_")) && !g.usedAxioms[fmtf("clausehit:%p", cl)] {
+			if (cl.Kind == "assert" || cl.Kind == "mark" || cl.Kind == "setflag" || cl.Kind == "storeassert" || cl.Kind == "loadsetflag" || cl.Kind == "loadmark") && cl.Call != "*" && (cl.Kind == "setflag" || !strings.HasPrefix(cl.Label, "hint_")) && !g.usedAxioms[fmtf("clausehit:%p", cl)] {
 				g.errorf("%s: clause `at call %s` [%s] matches no call in this function", g.fnLabel(), cl.Call, cl.Label)
 			}
 		}
